@@ -19,6 +19,7 @@ def cases(tier, seed):
     for n in (1500, 2500):
         for card in ((1, 1), (0, 1)):
             yield ('DC', n, card)
+    yield ('DC', 120000, (1, 1))      # more always-selected features than any round number a traversal might be capped at
 
 
 def describe(case):
